@@ -105,3 +105,16 @@ func (k Keeper) CtlLocalCopy() int {
 	k.n = 5
 	return k.n
 }
+
+// ---- C01 R11 controls: calendar queries on a local-zone time ----
+
+func CtlLocalTimeYear(ts int64) int { return time.UnixMilli(ts).Year() }
+
+func CtlLocalTimeFormat(ts int64) string {
+	t := time.Unix(ts, 0)
+	return t.Format(time.RFC3339)
+}
+
+func CtlUTCTimeYear(ts int64) int { return time.Unix(ts, 0).UTC().Year() }
+
+func CtlTimestampOnly(ts int64) int64 { return time.Unix(ts, 0).Add(time.Hour).Unix() }
